@@ -187,6 +187,21 @@ func (P *Program) nativeRewrites() (map[string][]byte, []string) {
 			continue
 		}
 		sort.Slice(es, func(i, j int) bool { return es[i].start > es[j].start })
+		// an edit inside the range of another edit (a replaced call inside a
+		// replaced function body) is dropped: the enclosing text is replaced as a whole
+		var keep []bodyEdit
+		for i, e := range es {
+			nested := false
+			for j, o := range es {
+				if i != j && o.start <= e.start && e.end <= o.end && (o.start < e.start || e.end < o.end) {
+					nested = true
+				}
+			}
+			if !nested {
+				keep = append(keep, e)
+			}
+		}
+		es = keep
 		for _, e := range es {
 			src = append(append(append([]byte{}, src[:e.start]...), []byte(e.text)...), src[e.end:]...)
 		}
